@@ -441,7 +441,7 @@ theorem getItem_ok_of_block (f : Fld) (hf : FldWF f) (item : Item) (sm : Mesh)
     (hgm : getMesh f.mesh item = .ok sm) (e1 : sm.ndim = f.mesh.ndim)
     (off cnt : Nat → Nat) (hcnt : ∀ b, b < f.mesh.ndim → 0 < cnt b)
     (hblk : ∀ b, b < f.mesh.ndim → AxisBlock sm f.mesh b b (off b) (cnt b))
-    (hsn : sm.n = tab f.mesh.ndim cnt) : ∃ g, getItem f item = .ok g := by
+    (hsn : sm.n = tab f.mesh.ndim cnt) (hmeta : metaOk f = true) : ∃ g, getItem f item = .ok g := by
   obtain ⟨hinv, hds, hvs⟩ := hf
   unfold getItem
   rw [hgm]
@@ -467,7 +467,6 @@ theorem getItem_ok_of_block (f : Fld) (hf : FldWF f) (item : Item) (sm : Mesh)
     simpa using this
   rw [point2index_eq f.mesh _ (by rw [tab_length]; exact e1) (fun b hb => (hcen b hb).2)]
   simp only
-  unfold mkFld
   have hshape : ∀ (sh : List Nat), sh = f.mesh.n →
       (tab sh.length fun b =>
         min ((tab f.mesh.ndim fun a => f.mesh.indexAx a ((tab sm.ndim fun a => sm.centreAx a
@@ -484,12 +483,7 @@ theorem getItem_ok_of_block (f : Fld) (hf : FldWF f) (item : Item) (sm : Mesh)
     have : f.mesh.n.getD b 0 = f.mesh.nAt b := rfl
     rw [this]
     omega
-  rw [if_neg (by
-    intro hcon
-    rcases hcon with hcon | hcon
-    · exact hcon (hshape f.data.shape hds)
-    · exact hcon (hshape f.valid.shape hvs))]
-  exact ⟨_, rfl⟩
+  exact mkFld_ok _ _ _ _ (hshape f.data.shape hds) (hshape f.valid.shape hvs) hmeta
 
 theorem getName_ok (m : Mesh) (hm : m.Inv) (name : String) (s : Region) (hfind : findSub m.subs name = some s)
     (k1 k2 : Nat → Nat) (hal : SubAligned m s k1 k2) :
